@@ -56,18 +56,31 @@ theorem rangeWords_nil (a b : Int) (h : b < a) : rangeWords a b = [] := by
   have : (b - a + 1).toNat = 0 := by omega
   simp [this]
 
-/-- a range iterator over defined bounds, ending below INT64_MAX and not crossing the sentinel -/
-theorem yields_range (a b : Int) (hb : b < INT64_MAX) (hlo : INT64_MIN ≤ a)
+theorem yields_range_undef (a b : Int) (h : isU a = true ∨ isU b = true) : Yields (.range a b) [] := by
+  apply Yields.done
+  rcases h with h | h <;> simp [iterAdvance, h]
+
+/-- a range iterator over defined 64-bit bounds that does not cross the sentinel -/
+theorem yields_range (a b : Int) (hb : b ≤ INT64_MAX) (hlo : INT64_MIN ≤ a)
     (hs : ∀ i, a ≤ i → i ≤ b → i ≠ UNDEF) (hbu : b ≠ UNDEF) :
     Yields (.range a b) (rangeWords a b) := by
   by_cases hab : a ≤ b
   · rw [rangeWords_cons a b hab]
     have ha : isU a = false := isUndef_of_ne (hs a (by omega) hab)
     have hbb : isU b = false := isUndef_of_ne hbu
-    have hadd : C.add a 1 = a + 1 := by
-      unfold C.add C.wrap; unfold INT64_MAX at hb; unfold INT64_MIN at hlo; omega
-    refine Yields.more _ (.range (a + 1) b) _ _ ?_ (yields_range (a + 1) b hb (by omega) (fun i h1 h2 => hs i (by omega) h2) hbu)
-    simp [iterAdvance, ha, hbb, hab, hadd]
+    by_cases hmax : a = INT64_MAX
+    · -- the last representable value: the iterator is marked exhausted instead of wrapping around
+      have hnil : rangeWords (a + 1) b = [] := rangeWords_nil _ _ (by omega)
+      rw [hnil]
+      refine Yields.more _ (.range UNDEF b) _ _ ?_ (yields_range_undef _ _ (Or.inl (by decide)))
+      have h1 : isU INT64_MAX = false := by decide
+      have h2 : INT64_MAX ≤ b := by omega
+      simp [iterAdvance, hbb, hmax, h1, h2]
+    · have hadd : C.add a 1 = a + 1 := by
+        unfold C.add C.wrap; unfold INT64_MAX at hb hmax; unfold INT64_MIN at hlo; omega
+      have hne : (a == INT64_MAX) = false := by simp [hmax]
+      refine Yields.more _ (.range (a + 1) b) _ _ ?_ (yields_range (a + 1) b hb (by omega) (fun i h1 h2 => hs i (by omega) h2) hbu)
+      simp [iterAdvance, ha, hbb, hab, hadd, hne]
   · rw [rangeWords_nil a b (by omega)]
     apply Yields.done
     simp only [iterAdvance]
@@ -75,10 +88,6 @@ theorem yields_range (a b : Int) (hb : b < INT64_MAX) (hlo : INT64_MIN ≤ a)
     simp [this]
 termination_by (b - a + 1).toNat
 decreasing_by omega
-
-theorem yields_range_undef (a b : Int) (h : isU a = true ∨ isU b = true) : Yields (.range a b) [] := by
-  apply Yields.done
-  rcases h with h | h <;> simp [iterAdvance, h]
 
 /-! ### single instructions on explicit states -/
 
